@@ -287,6 +287,29 @@ Proof. exact deliveries_independent_refuted_shared_map. Qed.
 Print Assumptions C18_deliveries_independent.
 Print Assumptions C18_concurrent_reply_has_own_op_id.
 Print Assumptions C18_deliveries_independent_refuted_shared_map.
+(** ** the handler's error VALUE.  [p_errkind] (plain, wrapped, context.Canceled, DeadlineExceeded, the
+    handler context's own Err(), wrapped or not) and [p_ctx] (handler context live / cancelled / timed
+    out) are inputs of every theorem about [process] above; the code looks at neither: *)
+Theorem C18_error_value_irrelevant : forall enc c i k x,
+  process enc c (with_errvalue i k x) = process enc c i.
+Proof. exact error_value_irrelevant. Qed.
+
+(** a reply is published for EVERY handler outcome whenever marshalling, the operation id, the Modify
+    hook and the topic allow it, carrying the error flag and text - there is no error value that
+    bypasses the reply (and with it the AckCommandErrors policy of C18_settle_policy) *)
+Theorem C18_reply_for_every_handler_outcome : forall enc c i,
+  reaches_publish enc c i = true ->
+  exists n, In (PPublish n) (fst (on_processed enc c i))
+    /\ n_op n = p_op i /\ n_haserr n = is_some (p_err i) /\ n_err n = errtext (p_err i).
+Proof. exact reply_for_every_handler_outcome. Qed.
+
+Theorem C18_no_reply_only_if_not_reachable : forall enc c i n,
+  In (PPublish n) (fst (on_processed enc c i)) -> reaches_publish enc c i = true.
+Proof. exact no_reply_only_if_not_reachable. Qed.
+
+Print Assumptions C18_error_value_irrelevant.
+Print Assumptions C18_reply_for_every_handler_outcome.
+Print Assumptions C18_no_reply_only_if_not_reachable.
 Print Assumptions C18_only_own_replies.
 Print Assumptions C18_replies_do_not_cross.
 Print Assumptions C18_listener_safe.
@@ -343,8 +366,8 @@ Proof. reflexivity. Qed.
     nacked; a failed reply publication nacks although AckCommandErrors is on *)
 Example C18_witness_processed :
   let enc := fun r : N => Some (r + 100)%N in
-  (process enc (PCfg false false false) (PIn true 7 3 (Some 5%N) 11 true true true false),
-   snd (process enc (PCfg true false false) (PIn true 7 3 None 11 true true false false)))
+  (process enc (PCfg false false false) (PIn true 7 3 (Some 5%N) 11 true true true false ECtxOwn CtxTimedOut),
+   snd (process enc (PCfg true false false) (PIn true 7 3 None 11 true true false false EPlain CtxLive)))
   = (([TP PCall; TP (PPublish (Notif 11 7 103 true 5)); TP (PPublishRet true); TR (HSettle false true)], Nacked),
      Nacked).
 Proof. reflexivity. Qed.
